@@ -3,153 +3,22 @@ package main
 import (
 	"context"
 	"fmt"
-	"os"
-	"runtime"
-	"time"
 
 	openfgav1 "github.com/openfga/api/proto/openfga/v1"
-	parser "github.com/openfga/language/pkg/go/transformer"
 
 	"github.com/openfga/openfga/pkg/server"
 	"github.com/openfga/openfga/pkg/storage/memory"
 )
 
-func try(name, dsl string, typ, rel, user string, tuples [][3]string) {
-	ds := memory.New()
-	s := server.MustNewServerWithOpts(server.WithDatastore(ds), server.WithExperimentals("pipeline_list_objects"), server.WithListObjectsPipelineEnabled(true))
-	ctx := context.Background()
-	cs, _ := s.CreateStore(ctx, &openfgav1.CreateStoreRequest{Name: "dbg-store"})
-	m := parser.MustTransformDSLToProto(dsl)
-	_, err := s.WriteAuthorizationModel(ctx, &openfgav1.WriteAuthorizationModelRequest{StoreId: cs.GetId(), TypeDefinitions: m.GetTypeDefinitions(), SchemaVersion: m.GetSchemaVersion(), Conditions: m.GetConditions()})
-	if err != nil {
-		fmt.Println(name, "model error", err)
-		return
-	}
-	for _, t := range tuples {
-		if err := ds.Write(ctx, cs.GetId(), nil, []*openfgav1.TupleKey{{Object: t[0], Relation: t[1], User: t[2]}}); err != nil {
-			fmt.Println("write", err)
-		}
-	}
-	done := make(chan string, 1)
-	start := time.Now()
-	go func() {
-		r, err := s.ListObjects(ctx, &openfgav1.ListObjectsRequest{StoreId: cs.GetId(), Type: typ, Relation: rel, User: user})
-		if err != nil {
-			done <- "err " + err.Error()
-			return
-		}
-		done <- fmt.Sprint("ok ", r.GetObjects())
-	}()
-	select {
-	case r := <-done:
-		fmt.Println(name, "=>", r, time.Since(start).Round(time.Millisecond))
-	case <-time.After(8 * time.Second):
-		fmt.Println(name, "=> HANG (no return 8s after the call; ListObjects deadline is 3s), goroutines:", runtime.NumGoroutine())
-		if os.Getenv("STACKS") != "" {
-			buf := make([]byte, 1<<20)
-			n := runtime.Stack(buf, true)
-			os.Stdout.Write(buf[:n])
-		}
-	}
-}
-
-func tryProto(name string, editor *openfgav1.Userset, typ, rel, user string, selfRef bool) {
-	ds := memory.New()
-	s := server.MustNewServerWithOpts(server.WithDatastore(ds), server.WithExperimentals("pipeline_list_objects"), server.WithListObjectsPipelineEnabled(true))
-	ctx := context.Background()
-	cs, _ := s.CreateStore(ctx, &openfgav1.CreateStoreRequest{Name: "dbg-store"})
-	this := func() *openfgav1.Userset { return &openfgav1.Userset{Userset: &openfgav1.Userset_This{This: &openfgav1.DirectUserset{}}} }
-	_ = this
-	tds := []*openfgav1.TypeDefinition{{Type: "user"}, {Type: "group",
-		Relations: map[string]*openfgav1.Userset{"editor": editor, "viewer": this()},
-		Metadata: &openfgav1.Metadata{Relations: map[string]*openfgav1.RelationMetadata{
-			"editor": {DirectlyRelatedUserTypes: func() []*openfgav1.RelationReference {
-				r := []*openfgav1.RelationReference{{Type: "user"}}
-				if selfRef {
-					r = append(r, &openfgav1.RelationReference{Type: "group", RelationOrWildcard: &openfgav1.RelationReference_Relation{Relation: "editor"}})
-				}
-				return r
-			}()},
-			"viewer": {DirectlyRelatedUserTypes: []*openfgav1.RelationReference{{Type: "group", RelationOrWildcard: &openfgav1.RelationReference_Relation{Relation: "editor"}}}},
-		}}}}
-	_, err := s.WriteAuthorizationModel(ctx, &openfgav1.WriteAuthorizationModelRequest{StoreId: cs.GetId(), TypeDefinitions: tds, SchemaVersion: "1.1"})
-	if err != nil {
-		fmt.Println(name, "model error", err)
-		return
-	}
-	done := make(chan string, 1)
-	start := time.Now()
-	go func() {
-		r, err := s.ListObjects(ctx, &openfgav1.ListObjectsRequest{StoreId: cs.GetId(), Type: typ, Relation: rel, User: user})
-		if err != nil {
-			done <- "err " + err.Error()
-			return
-		}
-		done <- fmt.Sprint("ok ", r.GetObjects())
-	}()
-	select {
-	case r := <-done:
-		fmt.Println(name, "=>", r, time.Since(start).Round(time.Millisecond))
-	case <-time.After(8 * time.Second):
-		fmt.Println(name, "=> HANG (no return 8s after the call; ListObjects deadline is 3s), goroutines:", runtime.NumGoroutine())
-		if os.Getenv("STACKS") != "" {
-			buf := make([]byte, 1<<20)
-			n := runtime.Stack(buf, true)
-			os.Stdout.Write(buf[:n])
-		}
-	}
-}
-
 func main() {
-	this := func() *openfgav1.Userset { return &openfgav1.Userset{Userset: &openfgav1.Userset_This{This: &openfgav1.DirectUserset{}}} }
-	un := func(k ...*openfgav1.Userset) *openfgav1.Userset {
-		return &openfgav1.Userset{Userset: &openfgav1.Userset_Union{Union: &openfgav1.Usersets{Child: k}}}
+	s := server.MustNewServerWithOpts(server.WithDatastore(memory.New()))
+	ctx := context.Background()
+	cs, _ := s.CreateStore(ctx, &openfgav1.CreateStoreRequest{Name: "dbg-store"})
+	for _, tok := range []string{"AAAA", "eyJwayI6IkxBVEVTVF9OU0NPTkZJR19hdXRoMHN0b3JlIiwic2siOiIxem1qbXF3MWZLZExTcUoyN01MdTdqTjh0cWgifQ==", "abc", "MDFIVk1NQkNNR1pOVDNTRUQ0WjE3RUNYQ0E="} {
+		_, e1 := s.ListStores(ctx, &openfgav1.ListStoresRequest{ContinuationToken: tok})
+		_, e2 := s.ReadChanges(ctx, &openfgav1.ReadChangesRequest{StoreId: cs.GetId(), ContinuationToken: tok})
+		_, e3 := s.ReadAuthorizationModels(ctx, &openfgav1.ReadAuthorizationModelsRequest{StoreId: cs.GetId(), ContinuationToken: tok})
+		_, e4 := s.Read(ctx, &openfgav1.ReadRequest{StoreId: cs.GetId(), ContinuationToken: tok})
+		fmt.Printf("token %.20q:\n  ListStores: %v\n  ReadChanges: %v\n  ReadAuthorizationModels: %v\n  Read: %v\n", tok, e1, e2, e3, e4)
 	}
-	tryProto("P0 editor=union(this,this) [user] only, list editor", un(this(), this()), "group", "editor", "user:z", false)
-	tryProto("P1 editor=this", this(), "group", "viewer", "user:z", true)
-	tryProto("P2 editor=union(this,this)", un(this(), this()), "group", "viewer", "user:z", true)
-	tryProto("P3 editor=union(union(this,this),this)", un(un(this(), this()), this()), "group", "viewer", "user:z", true)
-	tryProto("P4 editor=union(this,this) list editor", un(this(), this()), "group", "editor", "user:z", true)
-
-	try("A orig", `model
-  schema 1.1
-type user
-type group
-  relations
-    define editor: [user, user:*, group#editor]
-    define viewer: [group#editor, group#viewer]`, "group", "viewer", "user:z", nil)
-	try("B no-wildcard", `model
-  schema 1.1
-type user
-type group
-  relations
-    define editor: [user, group#editor]
-    define viewer: [group#editor, group#viewer]`, "group", "viewer", "user:z", nil)
-	try("C viewer-no-self", `model
-  schema 1.1
-type user
-type group
-  relations
-    define editor: [user, group#editor]
-    define viewer: [group#editor]`, "group", "viewer", "user:z", nil)
-	try("D editor-no-self", `model
-  schema 1.1
-type user
-type group
-  relations
-    define editor: [user]
-    define viewer: [group#editor, group#viewer]`, "group", "viewer", "user:z", nil)
-	try("E single-self", `model
-  schema 1.1
-type user
-type group
-  relations
-    define member: [user, group#member]`, "group", "member", "user:z", nil)
-	try("B with tuples", `model
-  schema 1.1
-type user
-type group
-  relations
-    define editor: [user, group#editor]
-    define viewer: [group#editor, group#viewer]`, "group", "viewer", "user:z", [][3]string{{"group:a", "editor", "user:z"}, {"group:b", "viewer", "group:a#editor"}})
 }
